@@ -125,10 +125,13 @@ Definition index_all_root content sok fuel (g : graph) (r : node) : graph * bool
 
 (* loadIndex (readonlyoci.go:171-187) and gcIndex (oci.go:529-583), graph part:
    a fresh graph.Memory, then IndexAll for every root in turn. *)
-Definition load_from content sok fuel (g0 : graph) (roots : list node) : graph * bool :=
-  fold_left (fun st r => let (g, ok) := st : graph * bool in
-                         let (g', ok') := index_all_root content sok fuel g r in (g', ok && ok'))
-            roots (g0, true).
+Fixpoint load_from (content : node -> list node) (sok : node -> bool) (fuel : nat)
+         (g : graph) (roots : list node) : graph * bool :=
+  match roots with
+  | [] => (g, true)
+  | r :: rs => let (g1, ok1) := index_all_root content sok fuel g r in
+               let (g2, ok2) := load_from content sok fuel g1 rs in (g2, ok1 && ok2)
+  end.
 Definition load content sok fuel (roots : list node) : graph * bool :=
   load_from content sok fuel empty_graph roots.
 
